@@ -2648,7 +2648,8 @@ def unravel_key(key):
         if len(newkey) == 1:
             return newkey[0]
         return tuple(newkey)
-    raise ValueError("the key must be a str or a tuple of str")
+    # same exception as the C++ implementation (std::runtime_error)
+    raise RuntimeError("key should be a Sequence<NestedKey>")
 
 
 def unravel_keys(*keys):
